@@ -30,7 +30,9 @@ def model_checks(tier):
     q = tier == 'quick'
     cfg = ('SPECIFICATION Spec\nCONSTANTS MaxCells = %d\n MaxRefsGen = %d\n ChainDepths = {%s}\nINVARIANT WorkLinear\nINVARIANT Correct\n'
            'PROPERTY Terminates\nCHECK_DEADLOCK FALSE\n' % (4 if q else 6, 2, '5, 12' if q else '5, 12, 30, 60'))
-    return [dict(name='order_algo', module='MC_Work.tla', workers=8, timeout=1500, heap='8g', cfg=cfg)]
+    # (gen=True: finished before the driver starts - the driver lowers the address-space limit around library calls, and a JVM
+    # started by another thread in that window would inherit the lowered limit)
+    return [dict(name='order_algo', module='MC_Work.tla', gen=True, workers=8, timeout=1500, heap='8g', cfg=cfg)]
 
 
 class Abort(BaseException):
